@@ -281,6 +281,8 @@ fn generate_endpoint_handler(service: &Service, endpoint: &Endpoint) -> TokenStr
     let safe_params = quote!(__safe_params);
     let response = quote!(__response);
     let method = &endpoint.ident;
+    let trait_name = &service.trait_name;
+    let (_, type_generics, _) = service.generics.split_for_impl();
 
     let ImplParams {
         impl_generics,
@@ -360,7 +362,7 @@ fn generate_endpoint_handler(service: &Service, endpoint: &Endpoint) -> TokenStr
                 #generate_query_params
                 #generate_safe_params
                 #(#generate_args)*
-                let #response = self.handler.#method(#(#args),*) #await_ ?;
+                let #response = <#trait_impl as #trait_name #type_generics>::#method(&*self.handler, #(#args),*) #await_ ?;
                 #generate_response
             }
         }
